@@ -13,6 +13,7 @@ from fractions import Fraction
 from typing import Any, Callable
 
 import jax
+import jax.extend
 import jax.numpy as jnp
 import numpy as np
 import z3
@@ -83,6 +84,13 @@ def _leaf_name(path):
 
 def trace(ob: Ob):
     closed, out_shape = jax.make_jaxpr(ob.fn, return_shape=True)(*ob.args)
+    try:  # dead-code elimination: equations no compared output depends on are not encoded
+        from jax._src.interpreters import partial_eval as pe
+
+        jp, _ = pe.dce_jaxpr(closed.jaxpr, [True] * len(closed.jaxpr.outvars), instantiate=True)
+        closed = jax.extend.core.ClosedJaxpr(jp, closed.consts)
+    except Exception:  # noqa: BLE001
+        pass
     return closed, out_shape
 
 
@@ -280,7 +288,7 @@ def _raised_in_repo(e):
         fn = fr.filename
         if "site-packages" in fn or fn.startswith("<") or "/lib/python" in fn:
             continue
-        return fn.startswith("/repo/src")
+        return fn.startswith(J.REPO_ROOT)
     return False
 
 
@@ -418,6 +426,8 @@ def decide(ob: Ob, pid: str, known: list) -> Result:
             return res
     # ---- symbolic execution
     modes = [ob.mode] if ob.mode == "exact" else ["uf", "exact"]
+    if os.environ.get("VERIF_ONLY_UF"):  # debugging aid
+        modes = modes[:1]
     for mode in modes:
         res.mode = mode
         interp = J.Interp(mul_mode=mode, while_bound=ob.while_bound)
@@ -482,6 +492,30 @@ def _check(s, timeout_s):
     return str(r), time.time() - t
 
 
+def _probe(s, registry, ob, res, tries=3):
+    leaves = jax.tree_util.tree_leaves(ob.args)
+    rng = np.random.RandomState(int(os.environ.get("VERIF_SEED", "0")) + 11)
+    for t in range(tries):
+        s.push()
+        for nm, (term, k, li, idx) in registry.items():
+            ex = np.asarray(leaves[li])[idx]
+            if k == "f":
+                v = Fraction(float(ex)).limit_denominator(64) + (Fraction(int(rng.randint(-8, 9)), 32) if t else 0)
+                s.add(term == z3.RealVal(v))
+            elif k == "i":
+                s.add(term == int(ex))
+            else:
+                s.add(term == bool(ex))
+        r, dt = _check(s, 20)
+        res.solver_s += dt
+        res.queries.append({"q": f"negated-property, inputs pinned (probe {t})", "verdict": r, "ms": round(dt * 1e3, 1)})
+        m = s.model() if r == "sat" else None
+        s.pop()
+        if m is not None:
+            return m
+    return None
+
+
 def _solve(ob, pid, res, assumptions, diffs, regions, registry):
     s = z3.Solver()
     for a in assumptions:
@@ -512,10 +546,15 @@ def _solve(ob, pid, res, assumptions, diffs, regions, registry):
             verdict = "unsat"
             break
         if r != "sat":
-            verdict = "unknown"
-            res.detail = "solver: " + r + " " + s.reason_unknown()
-            break
-        m = s.model()
+            # the solver could not decide the full query: look for a counterexample with the inputs pinned to
+            # concrete values (still a solver query over the draw atoms; a model found this way is replayed like any other)
+            m = _probe(s, registry, ob, res)
+            if m is None:
+                verdict = "unknown"
+                res.detail = "solver: " + r + " " + s.reason_unknown()
+                break
+        else:
+            m = s.model()
         args, assigned = model_inputs(m, registry, ob)
         which = [lbl for lbl, d in diffs if z3.is_true(m.eval(d, model_completion=True))][:4]
         differs, detail = replay_concrete(ob, args)
@@ -554,3 +593,34 @@ def _solve(ob, pid, res, assumptions, diffs, regions, registry):
                 res.detail = f"known finding {k['id']} reproduced: {detail}"
         s.pop()
     return "unsat"
+
+
+class KnownDeviation:
+    """An obligation plus the recorded deviant behaviour of a known finding.
+
+    The primary obligation states the property.  If it is violated (reproduced on the real code) and the
+    finding `finding` is listed for it in known_findings.json, the deviant obligation - the same real code
+    compared with a reference that has exactly the recorded defect - must hold for all values: then the
+    violation is the recorded one and nothing else (KNOWN-FINDING); any further deviation is a VIOLATION.
+    """
+
+    def __init__(self, primary: Ob, deviant: Ob, finding: str):
+        self.primary, self.deviant, self.finding = primary, deviant, finding
+        self.name, self.fn, self.args, self.note = primary.name, primary.fn, primary.args, primary.note
+
+    def run(self, pid, known):
+        r = decide(self.primary, pid, [])
+        if not (r.verdict == "sat" and r.reproduced):
+            return r
+        listed = [k for k in known if k["id"] == self.finding and k["property"] == pid and fnmatch.fnmatch(self.name, k.get("obligation", "*"))]
+        if not listed:
+            return r
+        r2 = decide(self.deviant, pid, [])
+        r.queries += [dict(q, q="deviant-reference: " + q["q"]) for q in r2.queries]
+        r.solver_s += r2.solver_s
+        if r2.verdict == "unsat":
+            r.known = self.finding
+            r.detail = f"known finding {self.finding} reproduced ({r.detail[:160]}); real code == reference with exactly the recorded defect for all values"
+        else:
+            r.detail = f"violation beyond known finding {self.finding}: deviant reference {r2.verdict}: {r2.detail[:200]} | primary: {r.detail[:200]}"
+        return r
